@@ -38,5 +38,23 @@ two features together / one of several equivalent paths" (`origin` in meta.json)
 |---------------|-------|-----------|-----|
 %s
 ''' % (', '.join(pend) or 'none', '\n'.join(rows))
+outside = []
+od = V + '/seeded/_outside'
+if os.path.isdir(od):
+    for d in sorted(os.listdir(od)):
+        mp = od + '/' + d + '/meta.json'
+        if os.path.exists(mp):
+            mm = json.load(open(mp))
+            outside.append('| `%s` — %s | %s |' % (d, esc(mm.get('summary', ''))[:420], esc(mm.get('outside', ''))[:500]))
+if outside:
+    new += '''
+Seeded changes set aside in `seeded/_outside/` — confirmed (tests green, demonstration fails with the patch), but what
+they need lies outside the quantifier of every property, so no check claims them; they are listed so that the limit is
+visible:
+
+| seeded change | why no check covers it |
+|---------------|------------------------|
+%s
+''' % '\n'.join(outside)
 open(V + '/DESIGN.md', 'w').write(s[:a] + new + s[b:])
 print(len(rows), 'rows')
